@@ -46,7 +46,53 @@ R3 = {
  "C20f": ("do joins all errors with errors.Join", "two or more failing functions: the returned error is none of the errors the functions returned"),
 }
 
+R4 = {
+ "C01g": ("reserved user function names only collected from files that contain derive calls", "a hand-written deriveEqual defined and called only in a file without derive calls, and a nested helper needed elsewhere"),
+ "C01h": ("argument types taken from the signature of the function the call already resolves to", "multi-pass generation where a late call carries the bare name an earlier pass gave to a transitive helper"),
+ "C02g": ("unexported fields of imported structs read by index among the kept fields", "an imported struct with a blank field before its unexported fields"),
+ "C02h": ("pointer case of equal's field() turned into a switch that lost the value-parameter dereference", "a *T field where T declares Equal(T) bool"),
+ "C03g": ("compare returns 0 for slices that start at the same element", "two views of one backing array with different lengths"),
+ "C03h": ("curried compare of a map sorts the keys of `this` once, when the closure is made", "the map's key set changes between currying and calling"),
+ "C04g": ("map hash collects keys into a package-level buffer reused between calls", "a map type reachable from its own values, hashed more than once in a process"),
+ "C04h": ("slice hash seeded with cap instead of len", "two Equal slices with different spare capacity"),
+ "C05g": ("pointer fields keep the destination's allocation + map key scratch declared once", "map[*int]V or map[[2]*int]V with at least two entries"),
+ "C05h": ("imported struct without exported fields copied by assignment", "such a struct holding a private pointer/slice/map, kept by value"),
+ "C06g": ("string leaves printed with %q", "a named string type with a String() or Error() method"),
+ "C06h": ("nil elements skipped, also in map loops", "a map entry whose value is a nil pointer, slice or map"),
+ "C07g": ("unresolved argument types detected structurally, but not below function types", "nested derive calls whose intermediate result is a function type + an old file mentioning a renamed type"),
+ "C07h": ("reload loop stops after two reloads without raising the pending error", "a four-deep chain of derive calls from an absent file"),
+ "C08g": ("imports sorted by (stdlib, last path element) without tie-break", "two imports ending in the same element"),
+ "C08h": ("Generate skips a package it considers done under another spelling (same name, one path a suffix of the other)", "./codec and ./internal/codec in one invocation"),
+ "C09g": ("untyped nil only rejected in the first argument position", "deriveTuple(a, nil)"),
+ "C09h": ("takewhile accepts a predicate over any type the elements are assignable to", "func(Namer) bool over []ID, func(Row) bool over [][]int"),
+ "C10g": ("file infos built over a filtered list with a shifted AST index", "a derived.gen.go present at load and a rename in a file sorting after it"),
+ "C10h": ("O_TRUNC only when the summed name-length delta is negative", "a rename that does not shorten the name in a file gofmt shrinks"),
+ "C11g": ("-autoname / -dedup honoured only in the first pass", "a clash visible only after a reload (arguments that are results of deriveKeys)"),
+ "C11h": ("join's Add drops the name returned by SetFuncName", "a deriveJoin clash under -autoname / -dedup"),
+ "C12g": ("with any -pluginprefix override the global -prefix is skipped", "both flags plus a call to a plugin not listed in -pluginprefix"),
+ "C12h": ("a call refused by the longest-prefix plugin is offered to plugins with shorter prefixes", "nested override prefixes and arguments the longer plugin refuses but the shorter accepts"),
+ "C13g": ("list-form Min exits early on the 'least value', len==0 for slices and maps", "an empty non-nil element followed by a nil one"),
+ "C13h": ("nil pointers swapped to the front, then sort.Slice on the sub-slice with a less over the whole list", "pointer elements with nils"),
+ "C14g": ("unique chooses the set path with types.Comparable", "pointer elements that are Equal but not identical"),
+ "C14h": ("union's set fast path never adds the appended items to the set", "a second list repeating an item the first lacks"),
+ "C15g": ("curry passes the zero value for blank parameters", "a function value whose type spells a parameter as _ but whose body reads it"),
+ "C15h": ("reserved names become a per-plugin argument; apply reserves nothing", "Apply over a function with a parameter called f"),
+ "C16g": ("ZeroValue spells slices and maps as empty composite literals", "a failing compose / join / fmap whose result is a slice or map (nil vs empty)"),
+ "C16h": ("Join swallows f's own error when it has two or more values", "Join over a function with >= 2 non-error results, nil incoming error, f fails"),
+ "C17g": ("hand decoder treats a correctly encoded U+FFFD as an error", "a string containing the replacement character itself"),
+ "C17h": ("rune results produced with strings.Map", "f returning a negative value or a non-code-point"),
+ "C18g": ("zero-argument form uses res == nil as the 'not computed' sentinel", "an f whose nilable result is nil"),
+ "C18h": ("a mutex held while f runs in the hash/Equal form", "f recursing through its own memoized form"),
+ "C19g": ("join over a slice of channels closes through an atomic last-forwarder counter", "an empty or nil slice of channels: output never closed"),
+ "C19h": ("pipeline drains each g(b) channel in turn", "second-stage producers that rendezvous with each other"),
+ "C20g": ("values assigned only when the function's error is nil", "a function returning a non-zero value together with an error"),
+ "C20h": ("goroutines write a shared err variable guarded by err == nil", "two or more failing functions: data race"),
+}
+
 out = sys.argv[1] if len(sys.argv) > 1 else "/tmp/seedout"
+ROUND = {k: 3 for k in R3}
+ROUND.update({k: 4 for k in R4})
+R3.update(R4)
 for sid, (change, needs) in sorted(R3.items()):
     prop = sid[:3]
     d = os.path.join(out, "verif_seeded_" + sid)
@@ -61,8 +107,8 @@ for sid, (change, needs) in sorted(R3.items()):
                 keys.append(m.group(1).strip())
     demo = lambda f: open(os.path.join(d, f), errors="replace").read() if os.path.exists(os.path.join(d, f)) else ""
     meta = {
-        "id": sid, "round": 3, "property": prop, "change": change, "needs_to_manifest": needs,
-        "origin": "written by a third-round sub-agent that saw the property text, its own scratch worktree of /repo HEAD (918ab17, with the fix: commits up to then) and one line per earlier change to avoid; nothing from /verif",
+        "id": sid, "round": ROUND[sid], "property": prop, "change": change, "needs_to_manifest": needs,
+        "origin": "written by a sub-agent of round %d that saw the property text, its own scratch worktree of /repo HEAD (with the fix: commits up to then) and one line per earlier change to avoid; nothing from /verif" % ROUND[sid],
         "patch": "patch.diff applies to /repo HEAD",
         "confirmed": "tools/seedtest.sh: scratch worktree of /repo HEAD, git apply, go build, pinned suite unchanged, demo/run.sh exits non-zero with the change and 0 on /repo",
         "caught_by": prop if nviol else "",
